@@ -364,6 +364,18 @@ def run_queries(ctx, n):
             continue
         ctx.failing('query %r: `access` answers %s, the model of the query grammar says otherwise (%s)' % (t[:80], json.dumps(r)[:160], v),
                     {'class': 'query-grammar-correspondence', 'text': t, 'impl': r, 'verdict': v}, found=False)
+    ftexts = qparse.filter_corpus(ctx.seed, max(600, n // 2))
+    fout = qparse.run_filters(ftexts + texts[::4], ctx.wd, 'c14fl')
+    fstats = {}
+    for t, v, r in fout:
+        fstats[v] = fstats.get(v, 0) + 1
+        if v in ('PAAgree', 'PAAgreeReject', 'PANotModelled'):
+            continue
+        ctx.failing('query with filters %r: `access` answers %s, the model of the grammar with filters says otherwise (%s)' % (t[:80], json.dumps(r)[:160], v),
+                    {'class': 'filter-grammar-correspondence', 'text': t, 'impl': r, 'verdict': v}, found=False)
+    ctx.coverage['filter_query_texts'] = len(fout)
+    ctx.coverage['filter_query_verdicts'] = fstats
+    ctx.coverage['evaluations'] += len(fout)
     groups = qparse.spelling_groups(ctx.seed, max(60, n // 8))
     flat = [s for ss in groups for s in ss]
     res = impl.run_ops_parallel([{'op': 'paccess', 'text': s} for s in flat], ctx.wd, 'c14qs')
@@ -407,7 +419,7 @@ def run(ctx):
                             'characters, backslash, #, non-ASCII in both quote styles' % len(SINGLE))
     ctx.coverage['trusted_base'] = [
         'Coq 8.16.1 kernel (coqc), vm_compute; no axioms',
-        'Lex.v, ValueParse.v, QueryParse.v, OpParse.v, ClauseParse.v, CnfParse.v (modelled, not verified; tied by the hooks parse_value_dump / parse_access_dump / parse_cmp_dump / parse_clause_dump / parse_conditions_dump: value / query / operator / clause / conditions, stop offset, nom error class) + translator tools/gv/tables.py for the keyword tables; hooks ast_dump / lit_dump',
+        'Lex.v, ValueParse.v, QueryParse.v, OpParse.v, ClauseParse.v, CnfParse.v, FilterParse.v (modelled, not verified; tied by the hooks parse_value_dump / parse_access_dump / parse_cmp_dump / parse_clause_dump / parse_conditions_dump: value / query / operator / clause / conditions, stop offset, nom error class) + translator tools/gv/tables.py for the keyword tables; hooks ast_dump / lit_dump',
         'the pretty-printer of tools/gv/gen.py (a spelling the printer cannot produce is not exercised)',
     ]
     ctx.assumptions = ['the type-block equivalence is compared on templates whose Resources is a non-empty map of maps (otherwise the type block raises an error where the filter block FAILs: recorded in DESIGN.md)']
